@@ -36,12 +36,12 @@ type StdinSpec struct {
 
 // ProcSpec is everything that distinguishes one simulated process.
 type ProcSpec struct {
-	Stdin     StdinSpec
+	Stdin StdinSpec
 	// FifoChunks is the read schedule of named pipes opened by path.
 	FifoChunks []int
 	SinkLimit  int // bytes stdout accepts before failing; <0 = unlimited
-	Faults    []Fault
-	PowerLoss *PowerLoss
+	Faults     []Fault
+	PowerLoss  *PowerLoss
 }
 
 // OpRec is one executed operation, kept so that generators can aim faults.
